@@ -20,7 +20,9 @@ PROP = {
                   "concurrent test samples real schedules of updaters, the single flush worker and readers.",
     "level_note": "Hours that have been outside the retention window at any time may or may not have been dropped: "
                   "for them the oracle accepts 'reported completely' or 'not reported' (hour mode, then all "
-                  "totals are exact again) resp. the interval [certain, all] (day mode). Updates issued between a "
+                  "totals are exact again) resp. the interval [certain, all] (day mode). The same holds for what was "
+                  "counted before POST stats_config {interval: 0} (documented only as 'statistics is disabled'): "
+                  "it may be reported or not, per hour. Updates issued between a "
                   "clock step and the next run of the flush worker (<= 1 s in production) are not generated. "
                   "The concurrent part judges only schedules that occur and is not built with -race (the race "
                   "detector run of this package belongs to C05). Trusts bbolt, encoding/json, net/http/httptest.",
@@ -52,7 +54,7 @@ PROP = {
         "thorough": ["nontrivial", "hist:mode_hours_with_data", "hist:mode_days_with_data",
                      "hist:restart_between_updates", "hist:two_hours_in_window", "hist:gap_rollover_with_data",
                      "hist:same_hour_restart_with_data", "hist:downtime_restart", "hist:expired_with_data",
-                     "hist:uncertain_hour_reported", "hist:clear_with_data", "hist:limit_increase",
+                     "hist:uncertain_in_window", "hist:legacy_disable_with_data", "hist:clear_with_data", "hist:limit_increase",
                      "hist:limit_decrease", "hist:disabled_update", "hist:invalid_update", "hist:config_rejected",
                      "conc:updates_spread_over_hours", "conc:restart_at_end"],
     },
